@@ -218,6 +218,37 @@ func ruleTabBasicNames(c *Ctx, r *R) {
 		})
 	}
 	if len(getTypeList) == 0 {
+		// ... or a package-level set of names (map[string]bool, never written) that getType
+		// consults with the token's symbol
+		if fd := c.Func("getType"); fd != nil {
+			for _, h := range c.withHelpers(fd) {
+				ast.Inspect(h.Body, func(n ast.Node) bool {
+					ix, ok := n.(*ast.IndexExpr)
+					if !ok || len(getTypeList) > 0 {
+						return true
+					}
+					id, ok := unparen(ix.X).(*ast.Ident)
+					if !ok || !strings.HasSuffix(nosp(c.Src(ix.Index)), ".Symbol") {
+						return true
+					}
+					v, ok := c.Obj(id).(*types.Var)
+					if !ok || v.Parent() != c.Types.Scope() || c.mapMutated(v) {
+						return true
+					}
+					if cl := c.mapLit(v.Name()); cl != nil {
+						vals, order := c.stringKeyed(cl)
+						for _, k := range order {
+							if tid, ok := unparen(vals[k]).(*ast.Ident); ok && tid.Name == "true" {
+								getTypeList = append(getTypeList, k)
+							}
+						}
+					}
+					return true
+				})
+			}
+		}
+	}
+	if len(getTypeList) == 0 {
 		r.undecided("getType", "-", "getType's list of basic type names not found")
 	}
 	inGetType := map[string]bool{}
